@@ -5,6 +5,7 @@ import ast
 from sa import AnalysisError
 from sa.kinds import (key, utext, call_name, recv_text, calls_in, node_calls, all_stores, store_targets)
 from sa.cfg import walk_calls, walk_nodes
+from sa.astutil import gp
 
 EXPLANATION = (
     "Structural decision of C18: (R1) every read-modify-write of the four counters of MaxTransactionCount is "
@@ -149,18 +150,34 @@ def run(ctx, rep):
     chf = prog.own_method("MaxTransactionCount", "_check_hour")
     cfg = ctx.cfg(chf)
     sn = node_calls(cfg, "_set_next_hour")
-    gsets = []
-    for n, c in sn:
-        gsets.append(sorted((utext(g.exprs[0]), pol) for g, pol in cfg.guards(n.id)))
-    first = [("self._next_hour is None", True)] in gsets
-    # the other restart must be reachable when _next_hour is set and the compared hour or date differs
-    other = [g for g in gsets if ("self._next_hour is None", False) in g]
-    atoms = [utext(n.exprs[0]) for n in cfg.live_nodes() if n.kind == "cond"]
-    cmp_ok = any("self._next_hour.date()" in a and "!=" in a for a in atoms) and \
-        any("self._next_hour.hour" in a and "!=" in a for a in atoms)
-    rep.check(first and bool(other) and cmp_ok, "R4",
+    # truth table over (no boundary set, same date, same hour): the counters restart exactly when no boundary
+    # is set or the date or the hour of the boundary differs from now + 1h
+    from rules.c05 import reach_under
+    import itertools
+    d_atom, h_atom = gp("self._next_hour.date() == next_hour.date()")[0], gp("self._next_hour.hour == next_hour.hour")[0]
+    atoms = {utext(n.exprs[0]) for n in cfg.live_nodes() if n.kind == "cond"}
+    bad = []
+    for none_, same_d, same_h in itertools.product([True, False], repeat=3):
+        def ev(e):
+            t = utext(e)
+            if t == "self._next_hour is None":
+                return none_
+            if t == d_atom:
+                return same_d
+            if t == h_atom:
+                return same_h
+            return None
+        hit = reach_under(cfg, cfg.entry, {n.id for n, c in sn}, ev)
+        n_exec = len(hit)
+        want = none_ or not same_d or not same_h
+        if bool(hit) != want or n_exec > 1:
+            bad.append("boundary None=%s same date=%s same hour=%s -> restart %s" % (none_, same_d, same_h, bool(hit)))
+    good = bool(sn) and not bad and {"self._next_hour is None", d_atom, h_atom} <= atoms
+    nh = [s_ for s_ in walk_nodes(chf.node.body, ast.Assign) if utext(s_.targets[0]) == "next_hour"]
+    good = good and len(nh) == 1 and "timedelta(hours=1)" in utext(nh[0].value)
+    rep.check(good, "R4",
               key(chf, None, "restart when no boundary is set or the boundary's date or hour differs from now+1h"), chf,
-              None, str(gsets))
+              None, "; ".join(bad) or str(sorted(atoms)))
     snh = prog.own_method("MaxTransactionCount", "_set_next_hour")
     cfg = ctx.cfg(snh)
     zero = {utext(n.ast.targets[0]) for n in cfg.live_nodes() if n.kind == "stmt" and isinstance(n.ast, ast.Assign)
